@@ -566,7 +566,7 @@ func (s *sim) runChain(sp scanSpec, w *world, tables, collKeys []string, interf 
 	}
 	ctx := "iteration " + sp.String()
 	viol := func(rule, format string, args ...interface{}) {
-		c.Violate(s.prop("C13"), rule, known13(sp, rule), "%s: %s", ctx, fmt.Sprintf(format, args...))
+		c.Violate(s.prop("C13"), rule, known13(sp, rule, pages), "%s: %s", ctx, fmt.Sprintf(format, args...))
 	}
 	if err != "" {
 		viol("scan-failed", "after %d pages: %s", pages, err)
